@@ -30,6 +30,18 @@ pub fn replay_file(reg: &dyn Registry, id: &str, path: &str) -> i32 {
         Some("schedule") => replay_schedule(reg, r),
         Some("jump-witness") | Some("collision") | Some("commute") => replay_state_ops(reg, r),
         Some("ctor") => replay_ctor(reg, r),
+        Some("jitter-test-timer") => replay_test_timer(reg, r),
+        Some("overlap") => {
+            let o = crate::checks::c19::overlap_run(reg, r["seed"].as_u64().unwrap_or(0), r["a_variant"].as_u64().unwrap_or(0) as usize, r["b_variant"].as_u64().unwrap_or(0) as usize, r["timer_read"].as_u64().unwrap_or(0) as usize, r["other_thread"].as_bool().unwrap_or(false));
+            println!("  instance A: overlapped {:?}\n              one after the other {:?}", o.got_a, o.want_a);
+            println!("  instance B ({}): overlapped {:?}\n              one after the other {:?}", o.b_desc, o.got_b, o.want_b);
+            finish(!o.got_b.is_empty() && (o.got_a != o.want_a || o.got_b != o.want_b))
+        }
+        Some("jitter-c16") => crate::checks::c16::replay(reg, r),
+        Some("clone-from") => replay_clone_from(reg, r),
+        Some("image-neighbour") => replay_image_neighbour(reg, r),
+        Some("edited-image") => replay_edited_image(reg, r),
+        Some("long-run") => replay_long_run(reg, r),
         _ => {
             println!("no dedicated replayer for this record; its content is the reproduction recipe:\n{}", serde_json::to_string_pretty(r).unwrap());
             0
@@ -301,3 +313,115 @@ fn replay_ctor(reg: &dyn Registry, r: &Value) -> i32 {
 
 #[allow(dead_code)]
 fn unused(_: &TimerScript) {}
+
+/// {"kind":"jitter-test-timer","label":..,"before":0|1|2,"probe_differences":[400 x i64],"zero_time":[..],"zero_time2":[..]}
+fn replay_test_timer(reg: &dyn Registry, r: &Value) -> i32 {
+    let Some(c) = crate::checks::c13::case_from_json(r) else { return 2 };
+    let o = crate::checks::c13::eval_case(reg, &c);
+    println!("  test_timer on script {:?}: {}", c.label, o.verdict);
+    if let Some((k, w)) = &o.violation {
+        println!("  {} :: {}", k, w);
+    }
+    finish(o.violation.is_some())
+}
+
+/// {"kind":"clone-from","type":T,"maker":..,"ops":[..],"target_ops":[..]|null}: overwrite a fresh generator
+/// (and one after target_ops) with the state after ops; it must equal it and continue like it
+fn replay_clone_from(reg: &dyn Registry, r: &Value) -> i32 {
+    let mut bad = false;
+    for target_ops in [Vec::new(), ops_of(&r["target_ops"])] {
+        let (Some(mut src), Some(mut reference), Some(mut target)) = (make(reg, r, "maker"), make(reg, r, "maker"), make(reg, r, "maker")) else { return 2 };
+        for op in ops_of(&r["ops"]) {
+            let _ = apply(&mut src, &op);
+            let _ = apply(&mut reference, &op);
+        }
+        for op in &target_ops {
+            let _ = apply(&mut target, op);
+        }
+        target.clone_from_dyn(src.as_ref());
+        let eq = target.eq_dyn(src.as_ref());
+        println!("  target after {} ops, overwritten by clone_from: == source: {:?}", target_ops.len(), eq);
+        bad |= eq == Some(false);
+        for op in [Op::U32, Op::U64, Op::Fill(9), Op::U32, Op::U32] {
+            let (a, b) = (apply(&mut reference, &op), apply(&mut target, &op));
+            println!("  {:8} original {}   clone_from target {}", op.short(), a.to_json(), b.to_json());
+            bad |= a != b;
+        }
+    }
+    finish(bad)
+}
+
+/// {"kind":"image-neighbour","type":T,"maker":..,"ops":[..],"image_byte":p,"flip":x}
+fn replay_image_neighbour(reg: &dyn Registry, r: &Value) -> i32 {
+    let Some(ty) = find_type(reg, r) else { return 2 };
+    let (Some(mut g), Some(mut reference)) = (make(reg, r, "maker"), make(reg, r, "maker")) else { return 2 };
+    for op in ops_of(&r["ops"]) {
+        let _ = apply(&mut g, &op);
+        let _ = apply(&mut reference, &op);
+    }
+    let Some(mut img) = g.ser() else { return 2 };
+    let p = r["image_byte"].as_u64().unwrap_or(0) as usize;
+    if p >= img.len() {
+        return 2;
+    }
+    img[p] ^= r["flip"].as_u64().unwrap_or(1) as u8;
+    let Some(Ok(mut nb)) = ty.de(&img) else {
+        println!("  the edited image does not deserialise");
+        return 0;
+    };
+    let eq = nb.eq_dyn(g.as_ref());
+    println!("  neighbour (image byte {} changed) == original: {:?}", p, eq);
+    let mut differ = false;
+    for op in [Op::U32, Op::U64, Op::U32, Op::U32, Op::Fill(9)] {
+        let (a, b) = (apply(&mut reference, &op), apply(&mut nb, &op));
+        println!("  {:8} original {}   neighbour {}", op.short(), a.to_json(), b.to_json());
+        differ |= a != b;
+    }
+    finish(eq == Some(true) && differ)
+}
+
+/// {"kind":"edited-image","type":T,"image":hex}: G' = deserialize(image); deserialize(serialize(G')) must behave like G'
+fn replay_edited_image(reg: &dyn Registry, r: &Value) -> i32 {
+    let Some(ty) = find_type(reg, r) else { return 2 };
+    let img = unhex(r["image"].as_str().unwrap_or(""));
+    let (Some(Ok(mut gp)), Some(Ok(mut twin))) = (ty.de(&img), ty.de(&img)) else {
+        println!("  the image does not deserialise");
+        return 0;
+    };
+    let Some(bytes) = gp.ser() else { return 2 };
+    let mut rr = match ty.de(&bytes) {
+        Some(Ok(x)) => x,
+        other => {
+            println!("  serialize(G') cannot be restored: {:?}", other.map(|r| r.err()));
+            return 1;
+        }
+    };
+    let mut bad = false;
+    let bw = ty.info().block_words.unwrap_or(4) * ty.info().word_bits / 8;
+    for op in [Op::U32, Op::U64, Op::Fill(bw + 9), Op::U32, Op::U32, Op::U64] {
+        let (a, b, c) = (apply(&mut twin, &op), apply(&mut gp, &op), apply(&mut rr, &op));
+        let short = |o: &Obs| o.to_json().to_string().chars().take(48).collect::<String>();
+        println!("  {:10} G' {}   G' after being serialised {}   deserialize(serialize(G')) {}", op.short(), short(&a), short(&b), short(&c));
+        bad |= a != b || a != c;
+    }
+    finish(bad)
+}
+
+/// {"kind":"long-run","type":T,"ctor":{..},"words":n}: draw n native words, report a panic
+fn replay_long_run(reg: &dyn Registry, r: &Value) -> i32 {
+    let Some(ty) = find_type(reg, r) else { return 2 };
+    let Some(mut g) = make(reg, r, "ctor") else { return 2 };
+    let words = r["words"].as_u64().unwrap_or(0);
+    let w32 = ty.info().word_bits == 32 || ty.info().family == crate::subject::Family::Core;
+    let res = crate::ops::guarded(|| {
+        for _ in 0..words {
+            if w32 {
+                g.next_u32();
+            } else {
+                g.next_u64();
+            }
+        }
+    });
+    println!("  {} native words: {:?}", words, res.as_ref().err());
+    finish(res.is_err())
+}
